@@ -2,9 +2,9 @@ import QrlModel.Props.C01
 import QrlModel.Props.C06
 import QrlModel.Proofs.Seg.H14
 import QrlModel.Proofs.Seg.H16
-/-! Thorough tier: the label-level whole-life checks of height 14 (43 segment certificates of 381 indices, about
-5 minutes of kernel evaluation on 16 cores) and of height 16 (key generation in 256 pieces of 256 leaves, the
-traversal in 257 certificates of 255 indices; about 20 minutes), and the C01 / C06 statements for those heights. -/
+/-! Thorough tier: the label-level whole-life checks of height 14 (key generation in 128 pieces of 128 leaves, the
+traversal in 127 segments of 129 indices) and of height 16 (256 pieces of 256 leaves, 771 segments of 85 indices) —
+together about 18 minutes of kernel evaluation on 16 cores, peak 18 GB — and the C01 / C06 statements for those heights. -/
 namespace Qrl.Xmss.Thorough
 open Qrl.BdsLabel
 
